@@ -71,6 +71,52 @@ func randRR(r *rand.Rand, escapes bool) dns.RR {
 	}
 }
 
+// randOpt: an OPT with one to three options drawn from the option universe of Gen_Truncate (mode "opts"), the
+// parameters random within the kind's range: every source netmask of a client subnet, data lengths 0..40 ...
+func randOpt(r *rand.Rand) *dns.OPT {
+	pick := func(xs ...int) int { return xs[r.Intn(len(xs))] }
+	var oo []odesc
+	for k := 1 + r.Intn(3); k > 0; k-- {
+		var d odesc
+		switch r.Intn(20) {
+		case 0, 1, 2:
+			d = odesc{"subnet", 1, r.Intn(33)}
+		case 3, 4, 5:
+			d = odesc{"subnet", 2, r.Intn(129)}
+		case 6:
+			d = odesc{"subnet", 0, 0}
+		case 7:
+			d = odesc{"nsid", r.Intn(40), 0}
+		case 8:
+			d = odesc{"cookie", pick(8, 16, 24, 32, 40), 0}
+		case 9:
+			d = odesc{"ul", 1 + r.Intn(7200), pick(0, 0, 1, 7200)}
+		case 10:
+			d = odesc{"llq", r.Intn(4), r.Intn(7200)}
+		case 11:
+			d = odesc{[]string{"dau", "dhu", "n3u"}[r.Intn(3)], r.Intn(8), 0}
+		case 12:
+			d = odesc{"expire", pick(0, 1, 86400), r.Intn(2)}
+		case 13:
+			d = odesc{"keepalive", pick(0, 0, 1, 600, 65535), 0}
+		case 14:
+			d = odesc{"padding", r.Intn(200), 0}
+		case 15:
+			d = odesc{"ede", r.Intn(30), r.Intn(60)}
+		case 16:
+			d = odesc{"esu", r.Intn(60), 0}
+		case 17:
+			d = odesc{"local", 65001 + r.Intn(534), r.Intn(40)}
+		case 18:
+			d = odesc{"reporting", r.Intn(3), 0}
+		default:
+			d = odesc{"zoneversion", r.Intn(5), pick(0, 4, 8)}
+		}
+		oo = append(oo, d)
+	}
+	return optWith(oo)
+}
+
 func record(out string, n int, sum *hx.Summary) {
 	r := hx.Rand()
 	w := hx.NewWriter(out)
@@ -129,7 +175,11 @@ func record(out string, n int, sum *hx.Summary) {
 		}
 		if r.Intn(2) == 0 {
 			pos := r.Intn(len(m.Extra) + 1)
-			m.Extra = append(m.Extra[:pos], append([]dns.RR{opt(1 + r.Intn(3))}, m.Extra[pos:]...)...)
+			o := opt(1 + r.Intn(3))
+			if r.Intn(2) == 0 {
+				o = randOpt(r)
+			}
+			m.Extra = append(m.Extra[:pos], append([]dns.RR{o}, m.Extra[pos:]...)...)
 		}
 		// sizes: random, the classic ones, and the exact packed lengths of the whole reply +-1
 		var size int
